@@ -1601,7 +1601,11 @@ else:
       __contains__.__doc__ = dict.__contains__.__doc__
       def __setitem__(self, key, value): #XXX: maintains 'history' of values
           sql = "insert into %s values(?,?)" % self.__state__['id']
-          self._engine.execute(sql, (key,value))
+          try:
+              self._engine.execute(sql, (key,value))
+          except: # could not be stored, so don't leave a transaction open
+              self._conn.rollback()
+              raise
           self._conn.commit()
           return
       __setitem__.__doc__ = dict.__setitem__.__doc__
